@@ -264,6 +264,16 @@ func genReshape(r *gen.R, validOnly bool) (mon.OpReq, Expect, bool) {
 	}
 	want, err := ref.Reshape(x, target)
 	req := mon.OpReq{Op: "Reshape", Inputs: []*ref.T{x, gen.I64s(target...)}}
+	if !validOnly && len(target) == 1 && r.Chance(0.25) {
+		// the shape given as a rank-0 tensor holding the one extent (not a 1-D tensor, as ONNX
+		// asks): refused, or read as the list of that one extent - never as "no extents"
+		req.Inputs[1] = ref.FromI(ref.I64, []int{}, []int64{target[0]})
+		exp := expFrom(want, err)
+		if exp.Kind == MustEqual {
+			exp.Kind, exp.Why = MayRefuse, "the shape operand has rank 0"
+		}
+		return req, exp, true
+	}
 	return req, expFrom(want, err), true
 }
 
